@@ -6,6 +6,7 @@ struct go {}; struct back_ {};
 static int g_actions = 0;
 struct Cnt { template<class E,class F,class S,class T> void operator()(E const&,F&,S&,T&){ ++g_actions; } };
 struct M_ : state_machine_def<M_> {
+  int tag = 0;                      // front-end data (C15: "state and front-end data")
   struct S0 : state<> {}; struct S1 : state<> {}; struct S2 : state<> {};
   typedef S0 initial_state;
   struct transition_table : mpl::vector< Row<S0,go,S1,Cnt,none>, Row<S1,go,S2,Cnt,none>, Row<S2,back_,S0,Cnt,none> > {};
@@ -25,6 +26,7 @@ template<class T> void drain(T& m) {
 struct leave { leave() {} template<class E> leave(E const&) {} }; struct tick {};
 static int g_nt = 0;
 struct XS_ : state_machine_def<XS_> {
+  int sub_tag = 0;                  // front-end data of a CONTAINED machine
   struct In : state<> {}; struct Out : exit_pseudo_state<leave> {};
   typedef In initial_state;
   struct transition_table : mpl::vector< Row<In, leave, Out, none, none> > {};
@@ -53,6 +55,11 @@ static void exit_point_scenario(const char* how, XT& a, XT& b) {
 }
 int main(int argc, char** argv) {
   if (argc > 1) g_only = argv[1];
+  { M a; a.start(); a.tag = 7; const M& ca = a; M b(ca); M c; c.start(); c.tag = 1; c = ca;
+    report("front-end-data.copied-and-assigned", b.tag == 7 && c.tag == 7 && a.tag == 7, "C15", "copy=" + std::to_string(b.tag) + " assigned=" + std::to_string(c.tag)); }
+  { XT a; a.start(); a.get_state<XS&>().sub_tag = 9; const XT& ca = a; XT b(ca); XT c; c.start(); c = ca;
+    report("front-end-data.of-a-contained-machine-copied-and-assigned", b.get_state<XS&>().sub_tag == 9 && c.get_state<XS&>().sub_tag == 9, "C15",
+           "copy=" + std::to_string(b.get_state<XS&>().sub_tag) + " assigned=" + std::to_string(c.get_state<XS&>().sub_tag)); }
   { XT a; a.start(); const XT& ca = a; XT b(ca); exit_point_scenario("copy", a, b); }
   { XT a; a.start(); const XT& ca = a; XT b; b.start(); b = ca; exit_point_scenario("assign", a, b); }
 #if IS_MP11
